@@ -59,6 +59,7 @@ type c13World struct {
 	dev      []int
 	clock    int
 	maBinary string
+	others   string // what is wrong with the listing of the other devices (empty = all right)
 }
 
 const c13Base = 1700000000
@@ -87,6 +88,15 @@ func (w *c13World) writePolicy(n int, code []int, emptyFiles bool) {
 		// the device must be found by WalkDir: an empty code file
 		os.WriteFile(filepath.Join(pdir, "code", "dev"), nil, 0644)
 	}
+	// other devices of the same policy, whose listing is known without the model: `aaa` (sorts first) and the
+	// IPv6-only `zzz6` are never approved and must always be printed; `devel` (name extends `dev`) is approved
+	// successfully right after every policy change and must never be printed; files with a dot are no devices
+	os.WriteFile(filepath.Join(pdir, "code", "aaa"), []byte(fmt.Sprintf("aaa %d\n", n)), 0644)
+	os.WriteFile(filepath.Join(pdir, "code", "devel"), []byte(fmt.Sprintf("devel %d\n", n)), 0644)
+	os.WriteFile(filepath.Join(pdir, "code", "dev.info"), []byte("{}\n"), 0644)
+	os.MkdirAll(filepath.Join(pdir, "code", "ipv6"), 0755)
+	os.WriteFile(filepath.Join(pdir, "code", "ipv6", "zzz6"), []byte(fmt.Sprintf("zzz6 %d\n", n)), 0644)
+	status.SetApprove(w.cfg, "devel", fmt.Sprintf("p%d", n), false)
 	cur := filepath.Join(w.dir, "policies", "current")
 	os.Remove(cur)
 	os.Symlink(fmt.Sprintf("p%d", n), cur)
@@ -178,15 +188,40 @@ func (w *c13World) observe() string {
 		cmd := exec.Command(w.maBinary)
 		cmd.Env = append(os.Environ(), "HOME="+w.dir)
 		out, err := cmd.CombinedOutput()
+		names := map[string]int{}
+		for _, l := range strings.Split(strings.TrimSpace(string(out)), "\n") {
+			if l != "" {
+				names[l]++
+			}
+		}
 		switch {
 		case err != nil:
 			listed = "ERR(" + strings.TrimSpace(string(out)) + ")"
-		case strings.TrimSpace(string(out)) == "dev":
+		case names["dev"] == 1:
 			listed = "1"
-		case strings.TrimSpace(string(out)) == "":
+		case names["dev"] == 0:
 			listed = "0"
 		default:
 			listed = "?(" + strings.TrimSpace(string(out)) + ")"
+		}
+		if err == nil {
+			w.others = ""
+			if names["aaa"] != 1 {
+				w.others += fmt.Sprintf(" aaa printed %d times (never approved: must be printed once)", names["aaa"])
+			}
+			if names["zzz6"] != 1 {
+				w.others += fmt.Sprintf(" zzz6 (IPv6 only) printed %d times (never approved: must be printed once)", names["zzz6"])
+			}
+			if names["devel"] != 0 {
+				w.others += " devel printed (approved successfully for the current policy: must not be printed)"
+			}
+			delete(names, "aaa")
+			delete(names, "zzz6")
+			delete(names, "devel")
+			delete(names, "dev")
+			for n := range names {
+				w.others += " unexpected line " + strconv.Quote(n)
+			}
 		}
 	}
 	return fmt.Sprintf("A=%s C=%s L=%s", show(v.Approve.Result, v.Approve.Policy, v.Approve.Time),
@@ -307,9 +342,13 @@ func runC13(ctx *Ctx) *Result {
 		os.WriteFile(filepath.Join(dir, ".netspoc-approve"), []byte("basedir = "+dir+"\n"), 0644)
 		w := &c13World{dir: dir, cfg: &program.Config{BaseDir: dir}, dev: []int{0, 0, 0, 0, 0, 0}, maBinary: bin}
 		var impl []string
-		for _, e := range es {
+		for k, e := range es {
 			w.apply(e, rng)
 			impl = append(impl, w.observe())
+			if w.others != "" {
+				res.Fail(map[string]any{"pred": "other_device_listing_wrong", "half": "listing"},
+					"missing-approve lists the other devices of the policy wrongly after "+c13Line(es[:k+1])+":"+w.others, es[:k+1])
+			}
 		}
 		os.RemoveAll(dir)
 		ans := drv.Ask(c13Line(es))
